@@ -1,7 +1,5 @@
 //! Arena correspondence harness: drives the REAL crate through its public API over the
-//! instrumented base allocator and writes a trace (operation, base-allocator events, result,
-//! statistics, block contents) that the extracted Coq model replays.  Property monitors run on
-//! the implementation's own observations and print `X <kind> ...` lines.
+//! instrumented base allocator and writes a trace that the extracted Coq model replays.
 #![allow(dead_code, unused, clippy::all)]
 use bump_scope::alloc::{AllocError, Allocator};
 use bump_scope::settings::BumpSettings;
@@ -12,611 +10,9 @@ use core::ptr::NonNull;
 use std::fmt::Write as _;
 use std::io::Write as _;
 use std::panic::{AssertUnwindSafe, catch_unwind};
+use verif_harness::arena_core::*;
 use verif_harness::pool::{Ev, P32, P64, TA, with_pool};
 use verif_harness::{Rng, arg};
-
-// ------------------------------------------------------------------ scripted operations
-#[derive(Clone, Debug)]
-enum Op {
-    /// cls: 0 Allocator::allocate, 1 typed slice, 2 typed sized, 3 allocate_zeroed
-    Alloc { w: u8, size: usize, align: usize, cls: u8, ty: u8, len: usize },
-    Dealloc { w: u8, b: usize },
-    Grow { w: u8, b: usize, size: usize, align: usize, zeroed: bool },
-    Shrink { w: u8, b: usize, size: usize, align: usize },
-    Checkpoint,
-    ResetTo { cp: usize },
-    ScopeEnter,
-    ScopeExit { panic: bool },
-    Reset,
-    ResetToStart,
-    Reserve { n: usize },
-    /// alloc_try_with(_mut) whose closure returns Err; ty selects the payload size
-    TryErr { mutable: bool, ty: u8 },
-    End,
-}
-
-struct Blk {
-    id: usize,
-    ptr: usize,
-    size: usize,
-    align: usize,
-    shadow: Vec<u8>,
-    born: u64,
-}
-
-struct St {
-    out: String,
-    rng: Rng,
-    script: Option<std::collections::VecDeque<(bool, Op)>>,
-    blocks: Vec<Blk>,
-    next_id: usize,
-    seed_ctr: u64,
-    epoch: u64,
-    cp_store: Vec<(usize, u64, bump_scope::Checkpoint)>, // (cp id, epoch, Checkpoint)
-    next_cp: usize,
-    ops_left: usize,
-    depth: usize,
-    max_depth: usize,
-    fail_rate: u64,
-    big: bool,
-    xlines: usize,
-    dead: bool,
-}
-
-fn pattern(seed: u64, i: usize) -> u8 {
-    ((seed.wrapping_mul(31).wrapping_add((i as u64).wrapping_mul(7)).wrapping_add(1)) % 251 + 1) as u8
-}
-
-const TY_SIZED: &[(usize, usize)] = &[(1, 1), (3, 1), (2, 2), (4, 4), (13, 1), (8, 8), (16, 16), (40, 8), (32, 32), (128, 64), (20, 4), (17, 1)];
-const TY_SLICE: &[(usize, usize)] = &[(1, 1), (2, 2), (4, 4), (8, 8), (16, 16), (32, 32), (12, 4)];
-
-#[derive(Clone, Copy)] #[repr(align(32))] struct T32([u8; 32]);
-#[derive(Clone, Copy)] #[repr(align(64))] struct T64([u8; 128]);
-
-impl St {
-    fn x(&mut self, kind: &str, detail: &str) {
-        if self.xlines < 50 {
-            let _ = writeln!(self.out, "X {kind} {detail}");
-        }
-        self.xlines += 1;
-    }
-
-    /// choose the next operation (online generation, or the next line of a replay script)
-    fn next_op(&mut self, top_level: bool) -> (bool, Op) {
-        if let Some(s) = &mut self.script {
-            return s.pop_front().unwrap_or((false, Op::End));
-        }
-        if self.ops_left == 0 {
-            return (false, if self.depth > 0 { Op::ScopeExit { panic: false } } else { Op::End });
-        }
-        self.ops_left -= 1;
-        let fail = self.rng.below(100) < self.fail_rate;
-        let r = &mut self.rng;
-        let nb = self.blocks.len();
-        loop {
-            let k = r.below(100);
-            let w = if r.coin(3, 4) { 0 } else { r.range(1, 4) as u8 };
-            let op = match k {
-                0..=37 => {
-                    let cls = match r.below(10) { 0..=4 => 0, 5..=6 => 1, 7..=8 => 2, _ => 3 };
-                    match cls {
-                        1 => {
-                            let ty = r.below(TY_SLICE.len() as u64) as u8;
-                            let (es, ea) = TY_SLICE[ty as usize];
-                            let len = match r.below(6) { 0 => 0, 1..=3 => r.range(1, 12) as usize, 4 => r.range(10, 200) as usize, _ => r.range(100, 3000) as usize };
-                            Op::Alloc { w: 0, size: es * len, align: ea, cls, ty, len }
-                        }
-                        2 => {
-                            let ty = r.below(TY_SIZED.len() as u64) as u8;
-                            let (s, a) = TY_SIZED[ty as usize];
-                            Op::Alloc { w: 0, size: s, align: a, cls, ty, len: 0 }
-                        }
-                        _ => {
-                            let align = 1usize << match r.below(10) { 0..=5 => r.below(5), 6..=8 => r.below(8), _ => r.below(13) };
-                            let size = match r.below(12) {
-                                0 => 0,
-                                1..=4 => r.below(40) as usize,
-                                5..=7 => r.below(400) as usize,
-                                8..=9 => r.below(3000) as usize,
-                                10 => r.below(20000) as usize,
-                                _ => if self.big { r.below(300000) as usize } else { r.below(5000) as usize },
-                            };
-                            Op::Alloc { w, size, align, cls, ty: 0, len: 0 }
-                        }
-                    }
-                }
-                38..=49 if nb > 0 => {
-                    // bias towards the newest block (the one that can be reclaimed)
-                    let b = if r.coin(2, 3) { self.blocks[nb - 1].id } else { self.blocks[r.below(nb as u64) as usize].id };
-                    Op::Dealloc { w, b }
-                }
-                50..=61 if nb > 0 => {
-                    let i = if r.coin(2, 3) { nb - 1 } else { r.below(nb as u64) as usize };
-                    let blk = &self.blocks[i];
-                    let add = match r.below(6) { 0 => 0, 1..=3 => r.below(64) as usize, 4 => r.below(2000) as usize, _ => r.below(20000) as usize };
-                    let align = if r.coin(3, 4) { blk.align } else { 1usize << r.below(8) };
-                    Op::Grow { w, b: blk.id, size: blk.size + add, align, zeroed: r.coin(1, 3) }
-                }
-                62..=73 if nb > 0 => {
-                    let i = if r.coin(2, 3) { nb - 1 } else { r.below(nb as u64) as usize };
-                    let blk = &self.blocks[i];
-                    let size = if blk.size == 0 { 0 } else { r.below(blk.size as u64 + 1) as usize };
-                    let align = if r.coin(2, 3) { blk.align } else { 1usize << r.below(8) };
-                    Op::Shrink { w, b: blk.id, size, align }
-                }
-                74..=78 => Op::Checkpoint,
-                79..=83 if !self.cp_store.is_empty() => {
-                    let i = r.below(self.cp_store.len() as u64) as usize;
-                    Op::ResetTo { cp: self.cp_store[i].0 }
-                }
-                84..=88 if self.depth < self.max_depth => Op::ScopeEnter,
-                89..=92 if self.depth > 0 => Op::ScopeExit { panic: r.coin(1, 4) },
-                93..=94 if top_level => Op::Reset,
-                95 if top_level => Op::ResetToStart,
-                96..=97 => Op::TryErr { mutable: r.coin(1, 2), ty: r.below(6) as u8 },
-                98..=99 => Op::Reserve { n: match r.below(4) { 0 => r.below(64) as usize, 1 => r.below(5000) as usize, 2 => r.below(100000) as usize, _ => r.below(2000) as usize } },
-                _ => continue,
-            };
-            return (fail, op);
-        }
-    }
-}
-
-// ------------------------------------------------------------------ the generic driver
-trait Cfg {
-    type A: bump_scope::BaseAllocator<<Self::S as bump_scope::settings::BumpAllocatorSettings>::GuaranteedAllocated> + Clone + Default + 'static;
-    type S: bump_scope::settings::BumpAllocatorSettings + 'static;
-}
-
-fn stats_line<A, S>(st: &mut St, scope: &BumpScope<'_, A, S>)
-where
-    A: bump_scope::BaseAllocator<S::GuaranteedAllocated>,
-    S: bump_scope::settings::BumpAllocatorSettings,
-{
-    let s = scope.stats();
-    let a = scope.any_stats();
-    let mut line = String::new();
-    let cur_start = s.current_chunk().map(|c| c.chunk_start().as_ptr() as usize);
-    let mut cur_idx: i64 = if scope.is_claimed() { -2 } else { -1 };
-    let mut chunks = vec![];
-    for (i, c) in s.small_to_big().enumerate() {
-        let start = c.chunk_start().as_ptr() as usize;
-        if Some(start) == cur_start {
-            cur_idx = i as i64;
-        }
-        chunks.push((start, c.size(), c.bump_position().as_ptr() as usize, c.capacity(), c.allocated(), c.remaining(),
-                     c.content_start().as_ptr() as usize, c.content_end().as_ptr() as usize, c.chunk_end().as_ptr() as usize));
-    }
-    let _ = write!(line, "T {} {} {} {} {} {}", s.count(), s.size(), s.capacity(), s.allocated(), s.remaining(), cur_idx);
-    for c in &chunks {
-        let _ = write!(line, " {}:{}:{}", c.0, c.1, c.2);
-    }
-    let _ = writeln!(st.out, "{line}");
-    flush(st);
-    // ---- C10 monitors on the implementation's own numbers
-    if s.allocated() + s.remaining() != s.capacity() || s.capacity() > s.size() || s.count() != chunks.len() {
-        st.x("stats-identity", &format!("count={} size={} capacity={} allocated={} remaining={} chunks={}", s.count(), s.size(), s.capacity(), s.allocated(), s.remaining(), chunks.len()));
-    }
-    // forwards == backwards
-    let back: Vec<usize> = s.big_to_small().map(|c| c.chunk_start().as_ptr() as usize).collect();
-    let fwd: Vec<usize> = chunks.iter().map(|c| c.0).collect();
-    if back.iter().rev().copied().collect::<Vec<_>>() != fwd {
-        st.x("chunk-list-forward-backward-differ", "");
-    }
-    for w in chunks.windows(2) {
-        if w[1].1 <= w[0].1 {
-            st.x("chunk-not-larger-than-predecessor", &format!("{} then {}", w[0].1, w[1].1));
-        }
-    }
-    for c in &chunks {
-        if c.1 % 16 != 0 {
-            st.x("chunk-size-not-multiple-of-16", &format!("{}", c.1));
-        }
-        if !(c.6 <= c.2 && c.2 <= c.7) {
-            st.x("position-outside-content-range", &format!("pos={} content={}..{}", c.2, c.6, c.7));
-        }
-        if !with_pool(|p| p.owns(c.0, c.1)) {
-            st.x("chunk-outside-granted-block", &format!("start={} size={}", c.0, c.1));
-        }
-    }
-    if let Some(i) = (cur_idx >= 0).then_some(cur_idx as usize) {
-        let m = <S as bump_scope::settings::BumpAllocatorSettings>::MIN_ALIGN;
-        if chunks[i].2 % m != 0 {
-            st.x("position-not-multiple-of-min-align", &format!("pos={} min_align={m}", chunks[i].2));
-        }
-    }
-    // type-erased statistics must report the same numbers and ranges
-    let any: Vec<(usize, usize, usize, usize, usize, usize, usize, usize, usize)> = a
-        .small_to_big()
-        .map(|c| (c.chunk_start().as_ptr() as usize, c.size(), c.bump_position().as_ptr() as usize, c.capacity(), c.allocated(), c.remaining(),
-                  c.content_start().as_ptr() as usize, c.content_end().as_ptr() as usize, c.chunk_end().as_ptr() as usize))
-        .collect();
-    if (a.count(), a.size(), a.capacity(), a.allocated(), a.remaining()) != (s.count(), s.size(), s.capacity(), s.allocated(), s.remaining()) || any != chunks {
-        st.x("any-stats-differ-from-typed-stats",
-             &format!("typed=({},{},{},{},{}) any=({},{},{},{},{}) header_size={}", s.count(), s.size(), s.capacity(), s.allocated(), s.remaining(),
-                      a.count(), a.size(), a.capacity(), a.allocated(), a.remaining(), header_size::<A>()));
-    }
-}
-
-fn flush(st: &mut St) {
-    let so = std::io::stdout();
-    let mut l = so.lock();
-    let _ = l.write_all(st.out.as_bytes());
-    let _ = l.flush();
-    st.out.clear();
-}
-
-fn header_size<A>() -> usize {
-    #[repr(C, align(16))]
-    struct H<A> { a: [usize; 4], b: A }
-    core::mem::size_of::<H<A>>()
-}
-fn header_align<A>() -> usize {
-    #[repr(C, align(16))]
-    struct H<A> { a: [usize; 4], b: A }
-    core::mem::align_of::<H<A>>()
-}
-
-fn events_lines(st: &mut St) {
-    let evs: Vec<Ev> = with_pool(|p| std::mem::take(&mut p.events));
-    for e in evs {
-        match e {
-            Ev::Alloc { size, align, addr, granted } => { let _ = writeln!(st.out, "E A {size} {align} {addr} {granted}"); }
-            Ev::Dealloc { addr, size, align } => { let _ = writeln!(st.out, "E D {addr} {size} {align}"); }
-        }
-    }
-    let errs: Vec<String> = with_pool(|p| std::mem::take(&mut p.errors));
-    for e in errs {
-        st.x("base-allocator-ledger", &e);
-    }
-}
-
-fn mem_line(st: &mut St, ptr: usize, size: usize) {
-    if size > 0 && size <= 512 {
-        let s = unsafe { core::slice::from_raw_parts(ptr as *const u8, size) };
-        let mut line = String::with_capacity(2 * size + 4);
-        line.push_str("M ");
-        for b in s {
-            let _ = write!(line, "{b:02x}");
-        }
-        let _ = writeln!(st.out, "{line}");
-    }
-}
-
-/// C01 / C02 monitors: every live block is inside owned memory, aligned, disjoint from the
-/// others, and still holds the bytes its owner wrote.
-fn monitors(st: &mut St) {
-    let mut msgs = vec![];
-    for b in &st.blocks {
-        if b.size > 0 && !with_pool(|p| p.owns(b.ptr, b.size)) {
-            msgs.push(("block-outside-owned-memory", format!("id={} ptr={} size={}", b.id, b.ptr, b.size)));
-        }
-        if b.ptr % b.align != 0 {
-            msgs.push(("block-misaligned", format!("id={} ptr={} align={}", b.id, b.ptr, b.align)));
-        }
-        let cur = unsafe { core::slice::from_raw_parts(b.ptr as *const u8, b.size) };
-        if cur != &b.shadow[..] {
-            let at = cur.iter().zip(b.shadow.iter()).position(|(x, y)| x != y).unwrap_or(0);
-            msgs.push(("block-contents-changed", format!("id={} ptr={} size={} first_diff_at={} expected={} found={}", b.id, b.ptr, b.size, at, b.shadow[at], cur[at])));
-        }
-    }
-    let mut iv: Vec<(usize, usize, usize)> = st.blocks.iter().filter(|b| b.size > 0).map(|b| (b.ptr, b.ptr + b.size, b.id)).collect();
-    iv.sort();
-    for w in iv.windows(2) {
-        if w[1].0 < w[0].1 {
-            msgs.push(("live-blocks-overlap", format!("id={} [{}..{}) and id={} [{}..{})", w[0].2, w[0].0, w[0].1, w[1].2, w[1].0, w[1].1)));
-        }
-    }
-    for (k, d) in msgs {
-        st.x(k, &d);
-    }
-}
-
-fn fill_new<A, S>(st: &mut St, scope: &BumpScope<'_, A, S>, ptr: usize, size: usize, align: usize, keep_prefix: Option<Vec<u8>>)
-where
-    A: bump_scope::BaseAllocator<S::GuaranteedAllocated>,
-    S: bump_scope::settings::BumpAllocatorSettings,
-{
-    let id = st.next_id;
-    st.next_id += 1;
-    // contents right after the operation (prefix preserved / zero tail) are checked by the caller
-    st.seed_ctr += 1;
-    let seed = st.seed_ctr;
-    let _ = writeln!(st.out, "O F {id} {seed}");
-    let mut shadow = vec![0u8; size];
-    for i in 0..size {
-        shadow[i] = pattern(seed, i);
-    }
-    unsafe { core::ptr::copy_nonoverlapping(shadow.as_ptr(), ptr as *mut u8, size) };
-    let _ = writeln!(st.out, "R U");
-    st.blocks.push(Blk { id, ptr, size, align, shadow, born: st.epoch });
-    st.epoch += 1; // the fill is an operation of its own in the model
-    stats_line(st, scope);
-}
-
-macro_rules! with_wrapper {
-    ($w:expr, $scope:expr, |$a:ident| $body:expr) => {
-        match $w {
-            0 => { let $a = $scope; $body }
-            1 => { let $a = WithoutDealloc($scope); $body }
-            2 => { let $a = WithoutShrink($scope); $body }
-            3 => { let $a = WithoutDealloc(WithoutShrink($scope)); $body }
-            _ => { let $a = WithoutShrink(WithoutDealloc($scope)); $body }
-        }
-    };
-}
-
-fn typed_sized<A, S>(scope: &BumpScope<'_, A, S>, ty: u8) -> Result<usize, AllocError>
-where
-    A: bump_scope::BaseAllocator<S::GuaranteedAllocated>,
-    S: bump_scope::settings::BumpAllocatorSettings,
-{
-    macro_rules! go { ($t:ty) => { scope.try_alloc_uninit::<$t>().map(|b| BumpBox::into_raw(b).as_ptr() as *mut u8 as usize) }; }
-    match ty {
-        0 => go!(u8), 1 => go!([u8; 3]), 2 => go!(u16), 3 => go!(u32), 4 => go!([u8; 13]), 5 => go!(u64),
-        6 => go!(u128), 7 => go!([u64; 5]), 8 => go!(T32), 9 => go!(T64), 10 => go!([u32; 5]), _ => go!([u8; 17]),
-    }
-}
-
-fn typed_slice<A, S>(scope: &BumpScope<'_, A, S>, ty: u8, len: usize) -> Result<usize, AllocError>
-where
-    A: bump_scope::BaseAllocator<S::GuaranteedAllocated>,
-    S: bump_scope::settings::BumpAllocatorSettings,
-{
-    macro_rules! go { ($t:ty) => { scope.try_alloc_uninit_slice::<$t>(len).map(|b| BumpBox::into_raw(b).as_ptr() as *mut u8 as usize) }; }
-    match ty {
-        0 => go!(u8), 1 => go!(u16), 2 => go!(u32), 3 => go!(u64), 4 => go!(u128), 5 => go!(T32), _ => go!([u32; 3]),
-    }
-}
-
-/// executes one non-structural operation on the active scope
-fn exec<A, S>(st: &mut St, scope: &BumpScope<'_, A, S>, fail: bool, op: &Op)
-where
-    A: bump_scope::BaseAllocator<S::GuaranteedAllocated>,
-    S: bump_scope::settings::BumpAllocatorSettings,
-{
-    flush(st);
-    if fail {
-        let _ = writeln!(st.out, "FAIL");
-        with_pool(|p| p.fail_next = true);
-    }
-    let find = |st: &St, id: usize| st.blocks.iter().position(|b| b.id == id);
-    match op {
-        Op::Alloc { w, size, align, cls, ty, len } => {
-            let _ = writeln!(st.out, "O A 0 {w} {size} {align} {} {cls}", (*cls == 3) as u8);
-            let layout = Layout::from_size_align(*size, *align).unwrap();
-            let res: Result<usize, AllocError> = match cls {
-                1 => typed_slice(scope, *ty, *len),
-                2 => typed_sized(scope, *ty),
-                3 => with_wrapper!(*w, scope, |a| a.allocate_zeroed(layout).map(|p| p.as_ptr() as *mut u8 as usize)),
-                _ => with_wrapper!(*w, scope, |a| a.allocate(layout).map(|p| p.as_ptr() as *mut u8 as usize)),
-            };
-            st.epoch += 1;
-            events_lines(st);
-            match res {
-                Ok(ptr) => {
-                    let _ = writeln!(st.out, "R B {ptr} {size}");
-                    if *cls == 3 {
-                        mem_line(st, ptr, *size);
-                        let s = unsafe { core::slice::from_raw_parts(ptr as *const u8, *size) };
-                        if s.iter().any(|x| *x != 0) {
-                            st.x("zeroed-allocation-not-zero", &format!("ptr={ptr} size={size}"));
-                        }
-                    }
-                    stats_line(st, scope);
-                    monitors(st);
-                    // blocks of size 0 with typed zero-length slices may be dangling: still tracked
-                    fill_new(st, scope, ptr, *size, *align, None);
-                }
-                Err(_) => {
-                    let _ = writeln!(st.out, "R E");
-                    stats_line(st, scope);
-                    monitors(st);
-                }
-            }
-        }
-        Op::Dealloc { w, b } => {
-            let Some(i) = find(st, *b) else { return };
-            let blk = st.blocks.remove(i);
-            let _ = writeln!(st.out, "O D 0 {w} {}", blk.id);
-            let layout = Layout::from_size_align(blk.size, blk.align).unwrap();
-            let before = scope.stats().allocated();
-            with_wrapper!(*w, scope, |a| unsafe { a.deallocate(NonNull::new(blk.ptr as *mut u8).unwrap(), layout) });
-            st.epoch += 1;
-            events_lines(st);
-            let _ = writeln!(st.out, "R U");
-            let after = scope.stats().allocated();
-            // C13: opt-outs are honoured
-            let dealloc_off = !<S as bump_scope::settings::BumpAllocatorSettings>::DEALLOCATES || matches!(*w, 1 | 3 | 4);
-            if dealloc_off && after != before {
-                st.x("deallocate-changed-allocated-although-deallocation-is-off", &format!("before={before} after={after}"));
-            }
-            stats_line(st, scope);
-            monitors(st);
-        }
-        Op::Grow { w, b, size, align, zeroed } => {
-            let Some(i) = find(st, *b) else { return };
-            let (id, ptr, osize, oalign) = { let k = &st.blocks[i]; (k.id, k.ptr, k.size, k.align) };
-            let _ = writeln!(st.out, "O G 0 {w} {id} {size} {align} {}", *zeroed as u8);
-            let old = Layout::from_size_align(osize, oalign).unwrap();
-            let new = Layout::from_size_align(*size, *align).unwrap();
-            let p = NonNull::new(ptr as *mut u8).unwrap();
-            let res = with_wrapper!(*w, scope, |a| unsafe { if *zeroed { a.grow_zeroed(p, old, new) } else { a.grow(p, old, new) } });
-            st.epoch += 1;
-            events_lines(st);
-            match res {
-                Ok(np) => {
-                    let blk = st.blocks.remove(i);
-                    let (nptr, nlen) = (np.as_ptr() as *mut u8 as usize, np.len());
-                    let _ = writeln!(st.out, "R B {nptr} {nlen}");
-                    mem_line(st, nptr, nlen);
-                    let cur = unsafe { core::slice::from_raw_parts(nptr as *const u8, nlen) };
-                    if cur[..osize] != blk.shadow[..] {
-                        st.x("grow-lost-contents", &format!("id={id} old_ptr={ptr} new_ptr={nptr} old_size={osize} new_size={nlen}"));
-                    }
-                    if *zeroed && cur[osize..*size].iter().any(|x| *x != 0) {
-                        st.x("grow-zeroed-tail-not-zero", &format!("id={id} new_ptr={nptr} old_size={osize} new_size={nlen} wrapper={w}"));
-                    }
-                    if nlen < *size {
-                        st.x("block-smaller-than-requested", &format!("requested={size} got={nlen}"));
-                    }
-                    stats_line(st, scope);
-                    monitors(st);
-                    fill_new(st, scope, nptr, nlen, *align, None);
-                }
-                Err(_) => {
-                    let _ = writeln!(st.out, "R E");
-                    stats_line(st, scope);
-                    monitors(st);
-                }
-            }
-        }
-        Op::Shrink { w, b, size, align } => {
-            let Some(i) = find(st, *b) else { return };
-            let (id, ptr, osize, oalign) = { let k = &st.blocks[i]; (k.id, k.ptr, k.size, k.align) };
-            let _ = writeln!(st.out, "O S 0 {w} {id} {size} {align}");
-            let old = Layout::from_size_align(osize, oalign).unwrap();
-            let new = Layout::from_size_align(*size, *align).unwrap();
-            let p = NonNull::new(ptr as *mut u8).unwrap();
-            let before = scope.stats().allocated();
-            let res = with_wrapper!(*w, scope, |a| unsafe { a.shrink(p, old, new) });
-            st.epoch += 1;
-            events_lines(st);
-            match res {
-                Ok(np) => {
-                    let blk = st.blocks.remove(i);
-                    let (nptr, nlen) = (np.as_ptr() as *mut u8 as usize, np.len());
-                    let _ = writeln!(st.out, "R B {nptr} {nlen}");
-                    mem_line(st, nptr, nlen);
-                    let cur = unsafe { core::slice::from_raw_parts(nptr as *const u8, nlen) };
-                    let keep = (*size).min(osize);
-                    if cur[..keep] != blk.shadow[..keep] {
-                        st.x("shrink-lost-contents", &format!("id={id} old_ptr={ptr} new_ptr={nptr} old_size={osize} new_size={size}"));
-                    }
-                    if nlen < *size {
-                        st.x("block-smaller-than-requested", &format!("requested={size} got={nlen}"));
-                    }
-                    let after = scope.stats().allocated();
-                    let shrink_off = !<S as bump_scope::settings::BumpAllocatorSettings>::SHRINKS || matches!(*w, 2 | 3 | 4);
-                    if shrink_off && after < before {
-                        st.x("shrink-decreased-allocated-although-shrinking-is-off", &format!("before={before} after={after} wrapper={w}"));
-                    }
-                    stats_line(st, scope);
-                    monitors(st);
-                    fill_new(st, scope, nptr, nlen, *align, None);
-                }
-                Err(_) => {
-                    let _ = writeln!(st.out, "R E");
-                    stats_line(st, scope);
-                    monitors(st);
-                }
-            }
-        }
-        Op::Checkpoint => {
-            let _ = writeln!(st.out, "O CP 0");
-            let cp = scope.checkpoint();
-            st.epoch += 1;
-            let id = st.next_cp;
-            st.next_cp += 1;
-            st.cp_store.push((id, st.epoch, cp));
-            events_lines(st);
-            let _ = writeln!(st.out, "R C {id}");
-            stats_line(st, scope);
-        }
-        Op::ResetTo { cp } => {
-            let Some(i) = st.cp_store.iter().position(|c| c.0 == *cp) else { return };
-            let _ = writeln!(st.out, "O RT 0 {cp}");
-            let ep = st.cp_store[i].1;
-            let before_chunks = scope.stats().count();
-            let c = st.cp_store[i].2;
-            unsafe { scope.reset_to(c) };
-            st.epoch += 1;
-            // checkpoints taken later are no longer valid; this one stays valid
-            st.cp_store.truncate(i + 1);
-            st.blocks.retain(|b| b.born < ep);
-            events_lines(st);
-            let _ = writeln!(st.out, "R U");
-            if scope.stats().count() < before_chunks {
-                st.x("scope-exit-released-a-chunk", "");
-            }
-            stats_line(st, scope);
-            monitors(st);
-        }
-        Op::Reserve { n } => {
-            let _ = writeln!(st.out, "O RV 0 {n}");
-            let res = scope.try_reserve(*n);
-            st.epoch += 1;
-            events_lines(st);
-            match res {
-                Ok(()) => {
-                    let _ = writeln!(st.out, "R U");
-                    if scope.stats().remaining() < *n {
-                        st.x("reserve-did-not-provide-capacity", &format!("n={n} remaining={}", scope.stats().remaining()));
-                    }
-                }
-                Err(_) => { let _ = writeln!(st.out, "R E"); }
-            }
-            stats_line(st, scope);
-            monitors(st);
-        }
-        _ => {}
-    }
-}
-
-fn try_err<A, S>(st: &mut St, scope: &mut BumpScope<'_, A, S>, fail: bool, mutable: bool, ty: u8)
-where
-    A: bump_scope::BaseAllocator<S::GuaranteedAllocated>,
-    S: bump_scope::settings::BumpAllocatorSettings,
-{
-    flush(st);
-    if fail {
-        let _ = writeln!(st.out, "FAIL");
-        with_pool(|p| p.fail_next = true);
-    }
-    let before_alloc = scope.stats().allocated();
-    let before_pos = scope.stats().current_chunk().map(|c| c.bump_position().as_ptr() as usize);
-    let before_count = scope.stats().count();
-    macro_rules! go {
-        ($t:ty) => {{
-            let (sz, al) = (core::mem::size_of::<Result<$t, u32>>(), core::mem::align_of::<Result<$t, u32>>());
-            let _ = writeln!(st.out, "O TW 0 {} {sz} {al}", mutable as u8);
-            let r: Result<Result<(), u32>, AllocError> = if mutable {
-                scope.try_alloc_try_with_mut::<$t, u32>(|| Err(7)).map(|r| r.map(|_| ()))
-            } else {
-                scope.try_alloc_try_with::<$t, u32>(|| Err(7)).map(|r| r.map(|_| ()))
-            };
-            r
-        }};
-    }
-    let r = match ty {
-        0 => go!(u32),
-        1 => go!([u64; 3]),
-        2 => go!([u8; 100]),
-        3 => go!([u8; 1000]),
-        4 => go!([u64; 700]),
-        _ => go!([u8; 40000]),
-    };
-    st.epoch += 1;
-    events_lines(st);
-    match r {
-        Ok(Err(7)) => {
-            let _ = writeln!(st.out, "R U");
-            // C03: an Err from the closure leaves allocated bytes and position exactly as before
-            let after_alloc = scope.stats().allocated();
-            let after_pos = scope.stats().current_chunk().map(|c| c.bump_position().as_ptr() as usize);
-            if before_pos.is_some() && (after_alloc != before_alloc || after_pos != before_pos) {
-                st.x("scope-exit-did-not-restore-position", &format!("alloc_try_with{} returning Err: allocated {before_alloc} -> {after_alloc}, position {before_pos:?} -> {after_pos:?}", if mutable { "_mut" } else { "" }));
-            }
-            if scope.stats().count() < before_count {
-                st.x("scope-exit-released-a-chunk", "");
-            }
-        }
-        Ok(_) => { st.x("panic", "alloc_try_with returned Ok although the closure returned Err"); }
-        Err(_) => { let _ = writeln!(st.out, "R E"); }
-    }
-    stats_line(st, scope);
-    monitors(st);
-}
 
 /// runs operations on `scope` until a ScopeExit / End; returns true if the exit is by panic
 fn run_scope<A, S>(st: &mut St, scope: &mut BumpScope<'_, A, S>) -> bool
@@ -638,30 +34,12 @@ where
     }
 }
 
-fn guarded_exec<A, S>(st: &mut St, scope: &BumpScope<'_, A, S>, fail: bool, op: &Op)
-where
-    A: bump_scope::BaseAllocator<S::GuaranteedAllocated>,
-    S: bump_scope::settings::BumpAllocatorSettings,
-{
-    let stp: *mut St = st;
-    let r = catch_unwind(AssertUnwindSafe(|| exec(unsafe { &mut *stp }, scope, fail, op)));
-    if r.is_err() {
-        let msg = LAST_PANIC.with(|m| m.borrow().clone());
-        st.x("panic", &msg.replace('\n', " "));
-        st.dead = true;
-        st.script = Some(Default::default());
-        st.ops_left = 0;
-    }
-}
-
-thread_local! { static LAST_PANIC: std::cell::RefCell<String> = const { std::cell::RefCell::new(String::new()) }; }
-
 fn scope_enter<A, S>(st: &mut St, scope: &mut BumpScope<'_, A, S>)
 where
     A: bump_scope::BaseAllocator<S::GuaranteedAllocated>,
     S: bump_scope::settings::BumpAllocatorSettings,
 {
-    let _ = writeln!(st.out, "O SC 0");
+    let _ = writeln!(st.out, "O SC {}", st.h);
     st.epoch += 1;
     let ep = st.epoch;
     let ncp = st.cp_store.len();
@@ -682,7 +60,7 @@ where
     }));
     st.depth -= 1;
     if st.dead { return; }
-    let _ = writeln!(st.out, "O SX 0 {}", r.is_err() as u8);
+    let _ = writeln!(st.out, "O SX {} {}", st.h, r.is_err() as u8);
     st.epoch += 1;
     st.cp_store.truncate(ncp);
     st.blocks.retain(|b| b.born < ep);
@@ -914,7 +292,7 @@ fn main() {
     }));
     let mut mk = |rng: Rng, script: Option<Vec<(bool, Op)>>, ops: usize, fail_rate: u64, big: bool| St {
         out: String::new(), rng, script: script.map(|v| v.into()), blocks: vec![], next_id: 0, seed_ctr: 0, epoch: 0,
-        cp_store: vec![], next_cp: 0, ops_left: ops, depth: 0, max_depth: 6, fail_rate, big, xlines: 0, dead: false,
+        cp_store: vec![], next_cp: 0, ops_left: ops, depth: 0, max_depth: 6, fail_rate, big, xlines: 0, dead: false, h: 0,
     };
     if !script.is_empty() {
         for (idx, sd, og, init, ia, opsv) in parse_script(&script) {
